@@ -17,7 +17,7 @@
        if ok { last = t; tokens = tokens }            state changes only on success
    Note the truncation to whole nanoseconds: a deficit smaller than one nanosecond of refill
    (-tokens < limit * 1ns, i.e. scaled deficit < limit) is still admitted and leaves the bucket
-   (slightly) negative.  The model keeps that: ok <-> n <= burst /\ 0 < tokens_scaled + limit.
+   (slightly) negative.  The model keeps that: ok <-> n <= burst /\ 0 < tokens_scaled + limit  (lim_margin).
 
    No proofs in this file (LimiterProofs.v). *)
 From Mos Require Import Base.Prelude.
@@ -77,7 +77,7 @@ Definition prefix_addr6 (bits : Z) (x : N) : addr :=
   if (0 <=? bits) && (bits <=? 128) then A6 (mask_bits 128 (Z.to_N bits) x) else ANone.
 
 (* ClientLimiter.mask (o = the effective options) *)
-Definition mask (o : opts) (a : addr) : addr :=
+Definition mask_addr (o : opts) (a : addr) : addr :=
   match unmap a with
   | A4 x => prefix_addr4 (o_v4 o) x
   | A6 x => prefix_addr6 (o_v6 o) x
@@ -87,123 +87,123 @@ Definition mask (o : opts) (a : addr) : addr :=
 (* ------------------------------------------------------------------ one bucket *)
 
 (* e{l: *rate.Limiter, lastSeen}: tok = l.tokens * 10^9, last = l.last, seen = lastSeen *)
-Record bucket := mkBucket { tok : Z; last : Z; seen : Z }.
+Record bucket := mkBucket { b_tok : Z; b_last : Z; b_seen : Z }.
 
 (* A bucket created by LoadOrCompute at time [now].  rate.NewLimiter starts with tokens = 0 and
    last = the zero Time (year 1); at the first use the elapsed time saturates at 292 years and the
    bucket is full, so (burst, now) is the same state for every later call (also a call that fails
    and leaves the rate.Limiter untouched: a full bucket stays full). *)
-Definition fresh (burst now : Z) : bucket := mkBucket (burst * SCALE) now now.
+Definition lim_fresh (burst now : Z) : bucket := mkBucket (burst * SCALE) now now.
 
 (* Limiter.advance *)
-Definition advance (rate burst : Z) (b : bucket) (now : Z) : Z :=
-  let l := if now <? last b then now else last b in
-  Z.min (burst * SCALE) (tok b + rate * (now - l)).
+Definition lim_advance (rate burst : Z) (b : bucket) (now : Z) : Z :=
+  let l := if now <? b_last b then now else b_last b in
+  Z.min (burst * SCALE) (b_tok b + rate * (now - l)).
 
 (* the quantity the decision depends on: tokens left after taking n, plus one nanosecond of refill.
    admitted <-> n <= burst /\ 0 < margin *)
-Definition margin (rate burst : Z) (b : bucket) (now n : Z) : Z :=
-  advance rate burst b now - n * SCALE + rate.
+Definition lim_margin (rate burst : Z) (b : bucket) (now n : Z) : Z :=
+  lim_advance rate burst b now - n * SCALE + rate.
 
 (* e.lastSeen = now; e.l.AllowN(now, n) *)
 Definition allow_bucket (rate burst : Z) (b : bucket) (now n : Z) : bool * bucket :=
-  if (n <=? burst) && (0 <? margin rate burst b now n)
-  then (true, mkBucket (advance rate burst b now - n * SCALE) now now)
-  else (false, mkBucket (tok b) (last b) now).
+  if (n <=? burst) && (0 <? lim_margin rate burst b now n)
+  then (true, mkBucket (lim_advance rate burst b now - n * SCALE) now now)
+  else (false, mkBucket (b_tok b) (b_last b) now).
 
 (* ------------------------------------------------------------------ the table *)
 
-Definition table := list (addr * bucket).
+Definition lim_table := list (addr * bucket).
 
-Fixpoint lookup (k : addr) (t : table) : option bucket :=
+Fixpoint lim_lookup (k : addr) (t : lim_table) : option bucket :=
   match t with
   | [] => None
-  | (k', b) :: t' => if addr_eqb k k' then Some b else lookup k t'
+  | (k', b) :: t' => if addr_eqb k k' then Some b else lim_lookup k t'
   end.
 
-Definition remove (k : addr) (t : table) : table :=
+Definition lim_remove (k : addr) (t : lim_table) : lim_table :=
   filter (fun e => negb (addr_eqb k (fst e))) t.
 
-Definition upsert (k : addr) (b : bucket) (t : table) : table := (k, b) :: remove k t.
+Definition lim_upsert (k : addr) (b : bucket) (t : lim_table) : lim_table := (k, b) :: lim_remove k t.
 
 (* gc at time now: lastSeen.Before(now - entryTtl) -> delete *)
-Definition expired (now : Z) (b : bucket) : bool := seen b <? now - entry_ttl.
-Definition gc (now : Z) (t : table) : table := filter (fun e => negb (expired now (snd e))) t.
+Definition lim_expired (now : Z) (b : bucket) : bool := b_seen b <? now - entry_ttl.
+Definition lim_gc (now : Z) (t : lim_table) : lim_table := filter (fun e => negb (lim_expired now (snd e))) t.
 
 (* ------------------------------------------------------------------ histories *)
 
 (* an arrival (time, client address, cost) or a run of the collector (environment step) *)
-Inductive ev := EvAllow (t : Z) (a : addr) (n : Z) | EvGc (t : Z).
+Inductive lev := EvAllow (t : Z) (a : addr) (n : Z) | EvGc (t : Z).
 
-Definition ev_time (e : ev) : Z := match e with EvAllow t _ _ => t | EvGc t => t end.
+Definition ev_time (e : lev) : Z := match e with EvAllow t _ _ => t | EvGc t => t end.
 
-Definition bucket_of (o : opts) (k : addr) (t : table) (now : Z) : bucket :=
-  match lookup k t with Some b => b | None => fresh (o_burst o) now end.
+Definition lim_bucket_of (o : opts) (k : addr) (t : lim_table) (now : Z) : bucket :=
+  match lim_lookup k t with Some b => b | None => lim_fresh (o_burst o) now end.
 
 (* ClientLimiter.AllowN / gc; o = effective options; output = the decision of an arrival *)
-Definition step (o : opts) (t : table) (e : ev) : table * option bool :=
+Definition lim_step (o : opts) (t : lim_table) (e : lev) : lim_table * option bool :=
   match e with
   | EvAllow now a n =>
-      let k := mask o a in
-      let r := allow_bucket (o_limit o) (o_burst o) (bucket_of o k t now) now n in
-      (upsert k (snd r) t, Some (fst r))
-  | EvGc now => (gc now t, None)
+      let k := mask_addr o a in
+      let r := allow_bucket (o_limit o) (o_burst o) (lim_bucket_of o k t now) now n in
+      (lim_upsert k (snd r) t, Some (fst r))
+  | EvGc now => (lim_gc now t, None)
   end.
 
 (* margin of an arrival in the current state (for the comparison's epsilon band); None for gc and for n > burst *)
-Definition step_margin (o : opts) (t : table) (e : ev) : option Z :=
+Definition step_margin (o : opts) (t : lim_table) (e : lev) : option Z :=
   match e with
   | EvAllow now a n =>
       if n <=? o_burst o
-      then Some (margin (o_limit o) (o_burst o) (bucket_of o (mask o a) t now) now n)
+      then Some (lim_margin (o_limit o) (o_burst o) (lim_bucket_of o (mask_addr o a) t now) now n)
       else None
   | EvGc _ => None
   end.
 
-Fixpoint final (o : opts) (t : table) (h : list ev) : table :=
-  match h with [] => t | e :: h' => final o (fst (step o t e)) h' end.
+Fixpoint lim_final (o : opts) (t : lim_table) (h : list lev) : lim_table :=
+  match h with [] => t | e :: h' => lim_final o (fst (lim_step o t e)) h' end.
 
-Fixpoint decisions (o : opts) (t : table) (h : list ev) : list (option bool) :=
-  match h with [] => [] | e :: h' => snd (step o t e) :: decisions o (fst (step o t e)) h' end.
+Fixpoint lim_decisions (o : opts) (t : lim_table) (h : list lev) : list (option bool) :=
+  match h with [] => [] | e :: h' => snd (lim_step o t e) :: lim_decisions o (fst (lim_step o t e)) h' end.
 
 (* events that concern key k: its own arrivals, and every collector run *)
-Definition touches (o : opts) (k : addr) (e : ev) : bool :=
-  match e with EvAllow _ a _ => addr_eqb (mask o a) k | EvGc _ => true end.
+Definition touches (o : opts) (k : addr) (e : lev) : bool :=
+  match e with EvAllow _ a _ => addr_eqb (mask_addr o a) k | EvGc _ => true end.
 
 (* the decisions taken for key k, in order *)
-Fixpoint decisions_for (o : opts) (k : addr) (h : list ev) (ds : list (option bool)) : list bool :=
+Fixpoint lim_decisions_for (o : opts) (k : addr) (h : list lev) (ds : list (option bool)) : list bool :=
   match h, ds with
   | e :: h', d :: ds' =>
       match e, d with
-      | EvAllow _ a _, Some b => if addr_eqb (mask o a) k then b :: decisions_for o k h' ds' else decisions_for o k h' ds'
-      | _, _ => decisions_for o k h' ds'
+      | EvAllow _ a _, Some b => if addr_eqb (mask_addr o a) k then b :: lim_decisions_for o k h' ds' else lim_decisions_for o k h' ds'
+      | _, _ => lim_decisions_for o k h' ds'
       end
   | _, _ => []
   end.
 
 (* total (unscaled) cost admitted for key k at times within [t0, t1] *)
-Fixpoint admitted (o : opts) (k : addr) (t0 t1 : Z) (h : list ev) (ds : list (option bool)) : Z :=
+Fixpoint lim_admitted (o : opts) (k : addr) (t0 t1 : Z) (h : list lev) (ds : list (option bool)) : Z :=
   match h, ds with
   | e :: h', d :: ds' =>
       (match e, d with
        | EvAllow t a n, Some true =>
-           if addr_eqb (mask o a) k && (t0 <=? t) && (t <=? t1) then n else 0
+           if addr_eqb (mask_addr o a) k && (t0 <=? t) && (t <=? t1) then n else 0
        | _, _ => 0
-       end) + admitted o k t0 t1 h' ds'
+       end) + lim_admitted o k t0 t1 h' ds'
   | _, _ => 0
   end.
 
-Fixpoint sorted_from (t : Z) (h : list ev) : bool :=
-  match h with [] => true | e :: h' => (t <=? ev_time e) && sorted_from (ev_time e) h' end.
-Definition sorted (h : list ev) : bool :=
-  match h with [] => true | e :: h' => sorted_from (ev_time e) h' end.
+Fixpoint lim_sorted_from (t : Z) (h : list lev) : bool :=
+  match h with [] => true | e :: h' => (t <=? ev_time e) && lim_sorted_from (ev_time e) h' end.
+Definition lim_sorted (h : list lev) : bool :=
+  match h with [] => true | e :: h' => lim_sorted_from (ev_time e) h' end.
 
-Definition has_gc (h : list ev) : bool := existsb (fun e => match e with EvGc _ => true | _ => false end) h.
+Definition has_gc (h : list lev) : bool := existsb (fun e => match e with EvGc _ => true | _ => false end) h.
 
 (* the executable statement of the window bound for one history (the spec oracle of kind `limiter`):
    scaled cost admitted for k in [t0,t1]  <  burst + rate*(t1 - t0) + one nanosecond of refill *)
-Definition bound_ok (o : opts) (k : addr) (t0 t1 : Z) (h : list ev) : bool :=
-  admitted o k t0 t1 h (decisions o [] h) * SCALE <=? o_burst o * SCALE + o_limit o * (t1 - t0) + (o_limit o - 1).
+Definition bound_ok (o : opts) (k : addr) (t0 t1 : Z) (h : list lev) : bool :=
+  lim_admitted o k t0 t1 h (lim_decisions o [] h) * SCALE <=? o_burst o * SCALE + o_limit o * (t1 - t0) + (o_limit o - 1).
 
 (* ------------------------------------------------------------------ admission at the listeners *)
 
@@ -245,10 +245,10 @@ Definition query_cost (l : listener) : option Z :=
   end.
 
 (* resourceLimiter: optional global bucket (rate = burst = global_limit), optional client limiter *)
-Record rl := mkRl { rl_global : option (Z * bucket); rl_client : option (opts * table) }.
+Record rl := mkRl { rl_global : option (Z * bucket); rl_client : option (opts * lim_table) }.
 
 Definition rl_init (global_limit : Z) (now : Z) (cfg : opts) : rl :=
-  mkRl (if 0 <? global_limit then Some (global_limit, fresh global_limit now) else None)
+  mkRl (if 0 <? global_limit then Some (global_limit, lim_fresh global_limit now) else None)
        (match init_client cfg with Some o => Some (o, []) | None => None end).
 
 Inductive rl_res := RlOk | RlGlobal | RlClient.
@@ -266,7 +266,7 @@ Definition rl_allow (r : rl) (now : Z) (a : addr) (n : Z) : rl * rl_res :=
     if snd g then
       match rl_client r with
       | Some (o, t) =>
-          let s := step o t (EvAllow now a n) in
+          let s := lim_step o t (EvAllow now a n) in
           (mkRl (fst g) (Some (o, fst s)),
            match snd s with Some false => RlClient | _ => RlOk end)
       | None => (mkRl (fst g) (rl_client r), RlOk)
